@@ -209,6 +209,14 @@ def run_on(fb, chk, tag=""):
         chk.check(okp, "Q4", tag + "proto-store", "acked_protocol_features := features",
                   "acked protocol features are stored as %s, not as the acknowledged value: a later backend-request channel does not "
                   "inherit the negotiated settings" % (detail or "nothing"), f.loc())
+    # the negotiated protocol features outlive RESET_DEVICE (device state is reset, protocol state retained): the field is
+    # written only by the negotiation itself, by the constructor and by RESET_OWNER
+    allowed = {"set_protocol_features", "new", "reset_owner"}
+    wr = sorted({g.name for g in fb.find(self_adt=daemon.HANDLER_ADT) for w in field_writes(g) if w["field"] == "acked_protocol_features"})
+    extra = [n_ for n_ in wr if n_ not in allowed]
+    chk.check(bool(wr) and not extra, "Q5", tag + "proto-writers", "acked_protocol_features written by %s only" % wr,
+              "acked_protocol_features is also written by %s: a backend-request channel attached afterwards does not inherit the "
+              "settings that are still negotiated" % extra)
     # ------------------------------------------------------------------ Q5
     f = ch.get("set_backend_req_fd")
     if f:
